@@ -71,6 +71,13 @@ func ProgLines(proc *schema.Process, condRPN map[string]string) []string {
 						}
 					case *schema.Expression:
 						cond = "informal"
+						// the program is what the DOCUMENT says: a condition the generator wrote as a formal
+						// expression stays that condition even if the parser took it for an informal one
+						if tp := ex.TextPayload(); tp != nil {
+							if r, ok := condRPN[strings.TrimSpace(*tp)]; ok && strings.TrimSpace(*tp) != "whatever" {
+								cond = r
+							}
+						}
 					}
 				}
 				out = append(out, fmt.Sprintf("flow %s %s %s %s %s", *id, *x.SourceRef(), *x.TargetRef(), orDash(parent), cond))
@@ -401,12 +408,33 @@ func Start(xmlText string, vars map[string]any, opts ...bpmn.Option) (*Inst, *sc
 			}
 		}
 	}
+	// the namespace prefix is the document's own business: a fifth of the documents bind the BPMN namespace to the
+	// prefix other modelers write (`bpmn2:`, `semantic:`), also in the QName values of xsi:type
+	switch h.Sum32() % 10 {
+	case 3:
+		xmlText = OtherPrefix(xmlText, "bpmn2")
+	case 7:
+		xmlText = OtherPrefix(xmlText, "semantic")
+	}
 	defs, err := schema.Parse([]byte(xmlText))
 	if err != nil {
 		return nil, nil, fmt.Errorf("parse: %w", err)
 	}
 	in, err := StartDefs(defs, vars, opts...)
 	return in, defs, err
+}
+
+// OtherPrefixDocuments counts the documents that ran under another namespace prefix.
+var OtherPrefixDocuments int
+
+// OtherPrefix rewrites a document written with the prefix `bpmn:` to the same document under prefix `pfx`.
+func OtherPrefix(xmlText, pfx string) string {
+	if !strings.Contains(xmlText, `xmlns:bpmn="`) {
+		return xmlText
+	}
+	OtherPrefixDocuments++
+	r := strings.NewReplacer("<bpmn:", "<"+pfx+":", "</bpmn:", "</"+pfx+":", `xmlns:bpmn="`, `xmlns:`+pfx+`="`, `="bpmn:t`, `="`+pfx+`:t`)
+	return r.Replace(xmlText)
 }
 
 func StartDefs(defs *schema.Definitions, vars map[string]any, opts ...bpmn.Option) (*Inst, error) {
